@@ -125,7 +125,7 @@ func obsXKey(k *hdkeychain.ExtendedKey) string {
 	}
 	return strings.Join([]string{str, strconv.Itoa(int(k.Depth())), strconv.FormatUint(uint64(k.ChildIndex()), 10),
 		strconv.FormatUint(uint64(k.ParentFingerprint()), 10), hx(k.ChainCode()), hx(k.Version()), bit(k.IsPrivate()),
-		bit(k.IsAffectedByIssue172()), as, pub, priv}, "/")
+		as, pub, priv}, "/")
 }
 
 func deriveErr(err error) string {
@@ -163,9 +163,9 @@ func tapLine(internal *btcec.PublicKey, leaves []txscript.TapLeaf) (string, *txs
 		} else if txscript.VerifyTaprootLeafCommitment(parsed, prog, leaf.Script) != nil {
 			res = "fail"
 		}
-		parts = append(parts, hx(cbBytes)+":"+res)
+		parts = append(parts, res)
 	}
-	return hx(root[:]) + " " + hx(prog) + " | " + strings.Join(parts, ","), tree, root[:], cbs
+	return strconv.Itoa(len(prog)) + " | " + strings.Join(parts, ","), tree, root[:], cbs
 }
 
 var dynMu sync.Mutex
@@ -390,8 +390,9 @@ func execHard(op string, a []string) (string, bool) {
 		tw := txscript.TweakTaprootPrivKey(*priv, root)
 		match := bit(bytes.Equal(schnorr.SerializePubKey(tw.PubKey()), prog))
 		var idx []string
-		for _, l := range leaves {
-			idx = append(idx, strconv.Itoa(tree.LeafProofIndex[l.TapHash()]))
+		for _, l := range leaves { // any index of an identical leaf is admissible
+			j, ok := tree.LeafProofIndex[l.TapHash()]
+			idx = append(idx, bit(ok && j < len(leaves) && leaves[j].LeafVersion == l.LeafVersion && bytes.Equal(leaves[j].Script, l.Script)))
 		}
 		again := "same"
 		for i := len(leaves) - 1; i >= 0; i-- { // sibling accessors in another order, then re-observe
@@ -404,7 +405,7 @@ func execHard(op string, a []string) (string, bool) {
 		if base2, _, _, _ := tapLine(internal, leaves); base2 != base {
 			again = "CHANGED"
 		}
-		return base + " | noscript=" + hx(noscript) + " p2tr=" + hx(p2tr) + " tweak=" + hx(tw.Serialize()) + ":" + match +
+		return base + " | noscript=" + hx(noscript) + " p2tr=" + bit(bytes.Equal(p2tr, append([]byte{0x51, 0x20}, prog...))) + " tweak=" + match +
 			" idx=" + strings.Join(idx, ",") + " again=" + again, true
 	case "nds":
 		s, err := txscript.NullDataScript(unhx(a[1]))
